@@ -164,6 +164,37 @@ func checkC20(c *Ctx, r *Report) {
 		r.check(len(a) > 0 && strings.Join(a, ",") == strings.Join(s, ","), "C20.R3", "scheme", c.rel(schemeFn.Pos()),
 			"the scheme validator accepts exactly the schemes startServer serves: "+strings.Join(a, ", "),
 			"the scheme validator accepts {"+strings.Join(a, ", ")+"} but startServer serves {"+strings.Join(s, ", ")+"}")
+		// what is compared is the configured value itself: the value is used as configured
+		// everywhere else (startServer, context initialisation, the NF profile)
+		raw, derived := 0, ""
+		for _, g := range withAnon(schemeFn) {
+			eachInstr(g, func(_ *ssa.BasicBlock, _ int, ins ssa.Instruction) {
+				bo, ok := ins.(*ssa.BinOp)
+				if !ok || (bo.Op != token.EQL && bo.Op != token.NEQ) {
+					return
+				}
+				x, y := bo.X, bo.Y
+				if _, isC := x.(*ssa.Const); isC {
+					x, y = y, x
+				}
+				if k, isC := y.(*ssa.Const); !isC || k.Value == nil || k.Value.Kind() != constant.String {
+					return
+				}
+				isParam := false
+				for _, p := range g.Params {
+					if stripConv(x) == ssa.Value(p) {
+						isParam = true
+					}
+				}
+				if isParam {
+					raw++
+				} else {
+					derived = describe(x) + " at " + posOf(c, bo)
+				}
+			})
+		}
+		r.check(raw > 0 && derived == "", "C20.R3", "scheme-as-configured", c.rel(schemeFn.Pos()), "the validator compares the configured value itself with the served schemes",
+			"the scheme validator compares a derived form of the configured value ("+derived+") with the served schemes: a value that differs from them in case or surrounding blanks is accepted, and the code that uses the value as configured (the https test of the context initialisation, startServer) does not recognise it - a scheme other than http / https passes validation")
 	}
 
 	// R3c: ReadConfig propagates the validation error
